@@ -43,8 +43,21 @@ def _lookup_stub(key):
     return _STUBS[key]
 
 
-def make_stub(kind, plan, delay):
-    """kind: 'sampler' | 'estimator'; plan: {invocation number: (where, exception class name)}"""
+class StubBackend:
+    """the attribute surface of a device backend behind a backend primitive (`BackendSamplerV2.backend` etc.): job size limits and the
+    like are legal things for a wrapper to look at, and must not change what the property promises"""
+
+    def __init__(self, max_circuits):
+        self.name = "stub_backend"
+        self.max_circuits = max_circuits
+        self.num_qubits = 1
+        self.description = "recording stub"
+        self.backend_version = 2
+
+
+def make_stub(kind, plan, delay, backend=None):
+    """kind: 'sampler' | 'estimator'; plan: {invocation number: (where, exception class name)};
+    backend: None (a reference primitive without backend) or {"max_circuits": k, "callable": bool}"""
     from qiskit.primitives import BaseEstimatorV2, BaseSamplerV2, PrimitiveResult, PubResult, SamplerPubResult
     from qiskit.primitives.containers import BitArray, DataBin
     from qiskit.primitives.containers.estimator_pub import EstimatorPub
@@ -86,6 +99,12 @@ def make_stub(kind, plan, delay):
             self.in_run = 0       # inside run() only (what a plain mutex wrapper serialises)
             self.max_in_run = 0
             _STUBS[id(self)] = self
+            if backend is not None:
+                b = StubBackend(backend.get("max_circuits"))
+                self.backend = (lambda: b) if backend.get("callable") else b
+            self.default_shots = 1024
+            self.default_precision = 0.0
+            self.options = {}
 
         def __reduce__(self):
             return (_lookup_stub, (id(self),))
@@ -151,7 +170,10 @@ def gen_scenario(rng):
     if rng.random() < 0.6:
         for _ in range(rng.randint(1, 2)):
             plan[str(rng.randint(0, n_rounds))] = [rng.choice(["run", "result"]), rng.choice(list(FAULT_CLASSES))]
-    return {"kind": kind, "wrapper": wrapper, "rounds": rounds, "plan": plan, "waiting": rng.choice([0.02, 0.02, 0.005, 0.0])}
+    backend = None
+    if rng.random() < 0.4:
+        backend = {"max_circuits": rng.choice([1, 2, 2, 3, None]), "callable": rng.random() < 0.3}
+    return {"kind": kind, "wrapper": wrapper, "rounds": rounds, "plan": plan, "waiting": rng.choice([0.02, 0.02, 0.005, 0.0]), "backend": backend}
 
 
 def execute(sc, waiting=None, delay=0.01, timeout=8.0):
@@ -159,7 +181,7 @@ def execute(sc, waiting=None, delay=0.01, timeout=8.0):
     from queasars.circuit_evaluation.mutex_primitives import BatchingMutexEstimator, BatchingMutexSampler, MutexEstimator, MutexSampler
 
     kind = sc["kind"]
-    stub = make_stub(kind, {int(k): tuple(v) for k, v in sc["plan"].items()}, delay)
+    stub = make_stub(kind, {int(k): tuple(v) for k, v in sc["plan"].items()}, delay, sc.get("backend"))
     if sc["wrapper"] == "batching":
         w = (BatchingMutexSampler if kind == "sampler" else BatchingMutexEstimator)(stub, waiting_duration=waiting)
     else:
@@ -251,6 +273,9 @@ def run_wrapper_level(ctx, prop, n_quick=25, n_thorough=400):
         {"kind": "estimator", "wrapper": "mutex-copies", "rounds": [[[1], [2], [3], [4]], [[5], [6], [7]]], "plan": {}},
         {"kind": "estimator", "wrapper": "batching", "rounds": [[[1, 2], [3]], [[4]], [[5], [6]]], "plan": {"0": ["result", "TwoArgError"]}},
         {"kind": "sampler", "wrapper": "batching", "rounds": [[[1], [2]], [[3]]], "plan": {}, "waiting": 0.0},
+        # a backend primitive with a job size limit below the batch size (one caller with three pubs; three callers)
+        {"kind": "sampler", "wrapper": "batching", "rounds": [[[1, 2, 3]], [[4], [5, 6], [7]]], "plan": {}, "backend": {"max_circuits": 1, "callable": False}},
+        {"kind": "estimator", "wrapper": "batching", "rounds": [[[1, 2, 3]], [[4], [5, 6], [7]]], "plan": {}, "backend": {"max_circuits": 2, "callable": True}},
     ]
     scenarios = fixed + [gen_scenario(rng) for _ in range(ctx.n(n_quick, n_thorough))]
     for sc in scenarios:
@@ -259,7 +284,8 @@ def run_wrapper_level(ctx, prop, n_quick=25, n_thorough=400):
         ex = execute(sc)
         nontrivial = sum(len(c) for c in sc["rounds"]) >= 3
         ctx.case({"wrapper_level": sc}, nontrivial=nontrivial, tags=["wrapper-level", "wrapper:" + sc["wrapper"], "faults" if sc["plan"] else "nofaults",
-                                                                      "zero-pub-call" if any(not ids for c in sc["rounds"] for ids in c) else "all-nonempty"])
+                                                                      "zero-pub-call" if any(not ids for c in sc["rounds"] for ids in c) else "all-nonempty",
+                                                                      "backend-primitive" if sc.get("backend") else "reference-primitive"])
         for p, what in oracle(sc, ex):
             if p == prop or (prop == "C03" and p == "C06"):
                 ctx.violate(what + " [wrapper level]", {"wrapper_level": sc}, ex, key=f"{prop}:wrapper:{what[:50]}")
